@@ -225,6 +225,14 @@ def run(chk):
                 "completely; declared carray extents are compared with the contract extents. distinct = form / handler name.")
     chk.trusted += ["plain-Python execution of the generated module stands in for numba.cfunc compilation (numba's own compiler is not exercised in the quick tier)"]
     chk.lean(LC.LAYOUT_MODULE, LC.TENSOR_SIZES_THEOREMS, extra_files=LC.LAYOUT_FILES)
+    # descriptors: Lean transcriptions of the C and the numba form / integral / expression generators, proved to agree for all IRs;
+    # each model is compared with what the real backend emits (C initialisers + cffi structs, numba class attributes)
+    from .. import descr_checks as DSC
+    chk.lean(DSC.DESCR_MODULE, DSC.DESCR_THEOREMS, extra_files=DSC.DESCR_FILES)
+    with lean.Driver("driver_descr") as d:
+        DSC.check_descriptors(chk, d, corpus.fixed() + corpus.expressions())
+    chk.trusted += ["exporter FormIR/IntegralIR/ExpressionIR -> s-expression and the C-initialiser / cffi / class-attribute readers of harness/descr_checks.py",
+                    "np.argsort is deterministic for equal inputs (both generators call integral_data separately)"]
     function_table(chk)
     ents = corpus.fixed() + corpus.expressions()
     carray_sizes(chk, ents)
@@ -239,4 +247,4 @@ def run(chk):
         kernels_vs_c(chk, corpus.complex_forms(), "complex64")
         kernels_vs_c(chk, small, "float32")
     if chk.tier == "thorough":
-        chk.leanchecker([LC.LAYOUT_MODULE])
+        chk.leanchecker([LC.LAYOUT_MODULE, DSC.DESCR_MODULE])
